@@ -34,6 +34,18 @@ class Arg:
         return f'Arg({self.key!r},{self.cid})'
 
 
+class CIKey(str):
+    """a key type with its own equality: case-insensitive identifiers"""
+    def __eq__(self, other):
+        return isinstance(other, str) and self.lower() == other.lower()
+
+    def __ne__(self, other):
+        return not self.__eq__(other)
+
+    def __hash__(self):
+        return hash(self.lower())
+
+
 class EqArg(Arg):
     """Arguments that all compare equal and hash alike although they print differently (as 1, 1.0 and True do):
     the key of a request is its str(), not its identity under ==."""
@@ -128,6 +140,15 @@ def gen(rng, flavour):
         cfg['exc_class'] = rng.choice(sorted(EXC_CLASSES))
     if flavour in ('c04', 'c11') and rng.random() < 0.15:
         cfg['args_equal'] = True
+    if flavour in ('c04', 'c10', 'c11') and rng.random() < 0.2:
+        cfg['fn_kind'] = rng.choice(['partial', 'instance', 'plain_iter'])
+    if flavour in ('c04', 'c10', 'c11') and rng.random() < 0.15:
+        cfg['nest'] = rng.choice(['new', 'new', 'same', 'other'])
+    if flavour == 'c11' and cfg['explicit_key'] is True and rng.random() < 0.3:
+        cfg['explicit_key'] = 'ci'
+    if flavour == 'c11' and cfg['ret'] and rng.random() < 0.3:
+        cfg['gc_at'] = sorted(rng.choice([BT / 2, BT + cfg['bdur'] + BT / 8, 2 * BT + cfg['bdur'], cfg['ret'] / 2 + BT + cfg['bdur']])
+                              for _ in range(rng.randint(1, 2)))
     if flavour == 'c11' and rng.random() < 0.3:
         for c in rng.sample(calls, min(len(calls), rng.randint(1, 2))):
             c['again'] = True
@@ -157,6 +178,7 @@ class BatcherHarness:
                 if not s.dead:
                     log.append(ev + (s.now,))
 
+            box = {'nested': None, 'nested_left': 3, 'keys': []}
             bid = [0]
             running = [0]
             uid = [0]
@@ -184,6 +206,11 @@ class BatcherHarness:
                         bh = beh.get(a.cid, 'val')
                         uid[0] += 1
                         u = uid[0]
+                        if cfg.get('nest') and box.get('nested') is not None and u % 3 == 0 and box['nested_left'] > 0:
+                            # the batch function itself asks its batcher for something (not awaited here: queued like any call)
+                            box['nested_left'] -= 1
+                            nk = {'new': f'n{u}', 'same': k, 'other': (box['keys'][u % len(box['keys'])] if box['keys'] else k)}[cfg['nest']]
+                            box['nested'](nk, 2000 + u)
                         if bh == 'omit':
                             emit('omit', b, k)
                             continue
@@ -224,6 +251,38 @@ class BatcherHarness:
                     running[0] -= 1
                     emit('bend', b)
 
+            # the batch function as the batcher sees it: a plain async generator function, a functools.partial of one, an
+            # instance with an async-generator __call__ (neither has __name__), or a plain function returning an object
+            # that only has __aiter__ / __anext__ (no aclose, no asend)
+            fn_kind = cfg.get('fn_kind', 'function')
+            plain_fn = fn
+            if fn_kind == 'partial':
+                import functools
+
+                async def fn_extra(extra, batch):
+                    async for kv in plain_fn(batch):
+                        yield kv
+                fn = functools.partial(fn_extra, 'x')
+            elif fn_kind == 'instance':
+                class BatchFn:
+                    async def __call__(self, batch):
+                        async for kv in plain_fn(batch):
+                            yield kv
+                fn = BatchFn()
+            elif fn_kind == 'plain_iter':
+                class PlainIter:
+                    def __init__(self, g):
+                        self.g = g
+
+                    def __aiter__(self):
+                        return self
+
+                    async def __anext__(self):
+                        return await self.g.__anext__()
+
+                def fn(batch):
+                    return PlainIter(plain_fn(batch))
+
             opts = dict(max_batch_size=cfg['size'], max_concurrent_batches=cfg['conc'],
                         batch_timeout=cfg['bt'], retention_timeout=cfg['ret'])
             if cfg.get('only') is not None:        # C15: pass just these options, the rest stay default
@@ -248,8 +307,18 @@ class BatcherHarness:
                         # 'prefixed': the explicit key differs from str(arg), so ignoring it shows
                         return 'K' + c['key'] if cfg['explicit_key'] == 'prefixed' else c['key']
 
+                    for t_gc in cfg.get('gc_at', ()):
+                        def collect():
+                            import gc
+                            emit('gc')
+                            gc.collect()
+                        loop.call_later(t_gc, collect)
+
                     def invoke(c, cid):
                         a = (EqArg if cfg.get('args_equal') else Arg)(c['key'], cid)
+                        if cfg['explicit_key'] == 'ci':
+                            # keys with an equality of their own: a str subclass that ignores case, spelled differently per call
+                            return bat(a, key=CIKey(c['key'].upper() if cid % 2 else c['key']))
                         if cfg['explicit_key']:
                             return bat(a, key=eff_key(c))
                         return bat(a)
@@ -297,6 +366,16 @@ class BatcherHarness:
                             # the answered caller asks for the same key again at once (no suspension point in between)
                             await call(500 + cid, dict(c, t=0, block=None, again=False), first=False)
 
+                    box['keys'] = sorted({eff_key(c) for c in prog['calls']})
+                    nested_tasks = []
+
+                    def nested(nk, cid):
+                        c = {'key': nk, 'beh': 'val', 'how': None, 'cancel': None, 't': 0}
+                        if cfg['explicit_key'] == 'prefixed' and nk.startswith('K'):
+                            c['key'] = nk[1:]
+                        nested_tasks.append(aio.ensure_future(call(cid, c, first=False)))
+                    box['nested'] = nested
+
                     ts = []
                     for cid, c in enumerate(prog['calls']):
                         tk = aio.ensure_future(call(cid, c))
@@ -316,6 +395,12 @@ class BatcherHarness:
                         loop.call_later(mu['t'], mutate)
                     if ts:
                         await aio.wait(ts, timeout=64.0)
+                    for _ in range(8):           # (a nested request may itself cause further nested requests)
+                        todo = [tk for tk in nested_tasks if not tk.done()]
+                        if not todo:
+                            break
+                        await aio.wait(todo, timeout=64.0)
+                        await aio.sleep(0)
                     emit('pending', [i for i, tk in enumerate(ts) if not tk.done()])
                     for j in range(fresh):
                         cid = 1000 + j
